@@ -590,6 +590,8 @@ const NAME_POOLS: &[&[&str]] = &[
     &["a b", "1x", "x+y", "😀", "sin", "-", " ", "x", "a  b", "(", "PI", "min"],
     &["v0", "v1", "v2", "v3", "v4", "v5", "v6", "v7", "v8", "v9", "v10", "v11", "v12", "v13", "v14", "v15", "v16", "v17", "v18", "v19"],
     &["zz", "z", "Z", "zZ", "Zz", "_", "__", "_1"],
+    // names that continue the name of a unary operator or constant of the table (bare spelling: one variable, never operator + rest)
+    &["sinx", "sinΘ", "sinΩ", "sinα", "sin_1", "sin2a", "cosΔt", "cosΑ", "PIΩ", "PIx", "x", "Θ", "xsin"],
 ];
 
 fn needs_brace(n: &str) -> bool {
@@ -623,7 +625,7 @@ pub fn c04(args: &Args) -> i32 {
         let pool = NAME_POOLS[pools[ti]];
         let mut rng = crate::tree::Rng(seed.wrapping_mul(31).wrapping_add(ti as u64));
         let mut out = vec![];
-        let n_prog = if quick { 150 } else { 1500 };
+        let n_prog = if quick { 600 } else { 3000 };
         for pi in 0..n_prog {
             // choose how many distinct names and an occurrence pattern
             let k = 1 + rng.below(pool.len());
@@ -1417,10 +1419,11 @@ fn subst_tree(t: &Tree, sigma: &BTreeMap<String, Tree>) -> Tree {
 pub fn c11(args: &Args) -> i32 {
     let quick = args.tier_quick();
     let t0 = Instant::now();
-    let tables: Vec<Table> = families::generic_tables(true, false).into_iter().step_by(if quick { 3 } else { 1 }).collect();
+    let tables: Vec<Table> = families::generic_tables(true, false);
     let ntab = tables.len();
     let threads = args.threads();
     let seed = args.seed();
+    let _ = seed;
     use families::{U1, X, Y, Z};
     let results: Vec<(Stats, Vec<Finding>, Vec<Value>, f64, u64)> = std::thread::scope(|sc| {
         let mut hs = vec![];
@@ -1460,6 +1463,21 @@ pub fn c11(args: &Args) -> i32 {
                     Some(Tree::un(U1, v("a"))),                     // name sorting before all others
                     Some(Tree::bin(Y, l("7"), l("8"))),             // variable-free operator expression
                 ];
+                let (mut exprs, mut repls) = (exprs, repls);
+                if !quick {
+                    // thorough: four variables, chains/rotations of renamings, repeated occurrences under unary operators
+                    exprs.extend(vec![
+                        Tree::bin(X, Tree::bin(Y, v("w"), v("x")), Tree::bin(Z, v("y"), v("z"))),
+                        Tree::bin(Z, Tree::un(U1, v("x")), Tree::un(U1, Tree::bin(X, v("x"), v("y")))),
+                        Tree::bin(Y, Tree::bin(Y, v("x"), v("y")), Tree::bin(Y, v("y"), v("x"))),
+                        Tree::un(U1, Tree::bin(X, Tree::un(Z, v("y")), Tree::bin(Z, v("x"), Tree::un(U1, v("y"))))),
+                    ]);
+                    repls.extend(vec![
+                        Some(v("z")),                                          // chains x->y, y->z and rotations
+                        Some(Tree::un(U1, v("y"))),                            // unary over a replaced variable
+                        Some(Tree::bin(Y, v("y"), v("x"))),                    // both swapped variables
+                    ]);
+                }
                 let mut idx = 0usize;
                 for tab in tables.iter() {
                     table::set_table(tab);
@@ -1468,9 +1486,6 @@ pub fn c11(args: &Args) -> i32 {
                         for choice in tuples(repls.len(), vars.len()) {
                             idx += 1;
                             if idx % threads != w {
-                                continue;
-                            }
-                            if quick && (idx / threads + seed as usize) % 3 != 0 {
                                 continue;
                             }
                             let mut sigma = BTreeMap::new();
@@ -1623,7 +1638,7 @@ pub fn c11(args: &Args) -> i32 {
         name: "substitution",
         out,
         bounds: json!({"tables": ntab, "expressions": 11, "replacement_pool": "none, renaming (y), identity/swap (x), constant, self-referential (x&6), new variables (z-w), name sorting first (sin a), variable-free operator expression (7%8)",
-            "maps": if quick { "every assignment of the pool to the variables of each expression, every 3rd (offset VERIF_SEED)" } else { "every assignment of the pool to the variables of each expression" },
+            "maps": if quick { "every assignment of the 8-replacement pool to the variables of each of the 11 expressions, all tables" } else { "every assignment of the 11-replacement pool (adds chains/rotations of renamings, a unary over a replaced variable, both swapped variables) to the variables of each of 15 expressions (adds 4-variable and repeated-occurrence shapes), all tables" },
             "forms": ["FlatEx::subs", "DeepEx::subs"],
             "check": "value == simultaneous tree substitution (solver, all values); var_names == sorted union of untouched and replacement variables; empty map == original; the printed result parses back to the same expression (C12)"}),
     };
